@@ -77,12 +77,19 @@ func (h *c16handler) Handle(ctx context.Context, q *dns.Msg, meta QueryMeta, pac
 }
 
 func c16bScenario(name string, nq int, coalesce bool, d int) vr.Scenario {
+	return c16bScenarioW(name, nq, coalesce, d, 0)
+}
+
+// c16bScenarioW: window > 0 = the client is a slow reader: the server's send
+// window holds `window` bytes, the client does not read for 8 s (while all its
+// queries are already there), then drains the stream.
+func c16bScenarioW(name string, nq int, coalesce bool, d int, window int) vr.Scenario {
 	var srv *fk.Conn
 	var served bool
 	body := func() {
 		served = false
 		cl, sv := fk.NewPipe("tcp", false)
-		_ = cl
+		sv.SendWindow = window
 		srv = sv
 		l := &c16listener{conns: []*fk.Conn{sv}}
 		var wg vs.WaitGroup
@@ -103,6 +110,22 @@ func c16bScenario(name string, nq int, coalesce bool, d int) vr.Scenario {
 		}
 		vs.GoNamed("serve", func() { ServeTCP(l, h, TCPServerOpts{}) })
 		wg.Wait() // every handler has produced its reply (the write may still be pending)
+		if window > 0 {
+			var cw vs.WaitGroup
+			cw.Add(1)
+			vs.GoNamed("slow-reader", func() {
+				defer cw.Done()
+				vs.Sleep(8 * time.Second)
+				buf := make([]byte, 4096)
+				for {
+					cl.SetReadDeadline(vs.Now().Add(2 * time.Second))
+					if _, err := cl.Read(buf); err != nil {
+						return // nothing more for 2 s (or the server closed): done
+					}
+				}
+			})
+			cw.Wait()
+		}
 		vs.Sleep(time.Millisecond)
 		served = true
 		l.Close()
@@ -166,6 +189,7 @@ func TestVerifC16b(t *testing.T) {
 	scs := []vr.Scenario{
 		c16bScenario("servetcp-2q", 2, false, d),
 		c16bScenario("servetcp-3q-coalesced", 3, true, d-1),
+		c16bScenarioW("servetcp-2q-slow-reader", 2, false, d-1, 1000),
 	}
 	vr.RunScenarios("C16", scs)
 }
